@@ -49,7 +49,9 @@ PROPS = {
     'C02': _hyb('C02', 'merge_graphs (consecutive new keys in template order, every template attribute copied, membership index, template edges and their '
                 'attributes mapped, old part and template untouched), resolve_disconnected_molecule (every real coarse node gets a fresh fragment graph whose '
                 'nodes are fine nodes recording exactly that coarse node; virtual nodes untouched) and rebuild_h_atoms (existing atoms keep membership/name/weight, '
-                'completed hydrogens carry those of a bonded atom; pysmiles assumed)',
+                'completed hydrogens carry those of a bonded atom; pysmiles assumed), annotate_fragments (atom n is in the fragment graph of coarse node k <=> k is in n\'s membership list; '
+                'fragment bonds are exactly the fine bonds between two atoms of the fragment; itertools.combinations assumed) and MoleculeResolver.resolve at coarse levels '
+                '(the same bi-implication as a postcondition of the returned pair of graphs)',
                 'membership bi-implication, covering and template-copy isomorphism as run-time postconditions of every resolve() on generated base graphs x fragment sets, all levels.', _T_EXT),
     'C03': _hyb('C03', 'ALL clauses at the point of bond creation: compatible == spec for both conventions; match_bonding_descriptors returns a compatible pair '
                 'present on the two graphs and raises LookupError iff none exists; edges_from_bonding_descrpt adds at most `order` bonds per base-graph edge (none for 0), '
@@ -60,8 +62,8 @@ PROPS = {
     'C05': _hyb('C05', '_find_next_character', 'read(shorthand) isomorphic to denote(expand(ast)) and identical numbering for multiplied nodes over G1 with multipliers at every position.', _T_EXT),
     'C06': _hyb('C06', 'MoleculeResolver.resolve at every intermediate (coarse) level: the level counter advances by one, the returned coarse graph IS the previous '
                 'fine graph (same object, same nodes and bonds), its atom names have become the fragment names, and every step is called in a state that '
-                'satisfies its contract (resolve_disconnected_molecule -> edges_from_bonding_descrpt -> squash_atoms, each discharged separately; '
-                'sort_nodes_by_attr and annotate_fragments assumed); the final all-atom level is outside this contract (pysmiles hydrogen completion)',
+                'satisfies its contract (resolve_disconnected_molecule -> edges_from_bonding_descrpt -> squash_atoms -> annotate_fragments, each discharged separately; '
+                'sort_nodes_by_attr assumed), and the membership bi-implication between the two returned graphs; the final all-atom level is outside this contract (pysmiles hydrogen completion)',
                 'stepwise resolution == flattened two-level string; resolve / resolve_iter / resolve_all agree; each coarse graph is the previous fine graph.', _T_EXT),
     'C07': _bnd('C07', 'read_cgsmiles(write_cgsmiles_graph(G)) isomorphic to G over all connected graphs <= 4 nodes x all bond-order assignments 0-4 (quick), <= 6 nodes sampled (thorough), relabelings.',
                 'The DFS writer and the scanner are serialiser/scanner code outside the accepted subset (DESIGN §6 C07).', _T_EXT),
@@ -87,11 +89,13 @@ PROPS = {
                 'E/Z interpretation happens inside pysmiles (trusted).', _T_EXT),
     'C16': _hyb('C16', 'merge_graphs (copy isomorphic to the template, membership), find_complementary_bonding_descriptor (every result eligible and complementary, '
                 'OSError iff none), find_open_bonds (node listed under a descriptor iff its list holds it) and add_fragment (exactly one copy and one bond per growth step, '
-                'between an existing atom and the copy of the drawn partner atom, complementary descriptors of equal order, bond order = that order, partner descriptor consumed)',
+                'between an existing atom and the copy of the drawn partner atom, complementary descriptors of equal order, bond order = that order, partner descriptor consumed; '
+                'with atomistic templates every atom of the grown molecule stays fit for hydrogen completion, so sample() calls rebuild_h_atoms inside its contract)',
                 'connected tree of copies, complementary descriptors of equal order, no descriptor twice, canonical numbering, valence, over G4 sampler configurations.', _T_EXT),
     'C17': _hyb('C17', '_set_bond_order_defaults (list and dict variants), _select_bonding_operator (result is offered; with a non-empty table its reactivity is > 0; trusted random.choices), '
                 'add_fragment (a descriptor with reactivity 0 is never the growth site, a partner with conditional reactivity 0 is never chosen, terminal rule both ways) and '
-                'sample (ghost sum of added fragment masses reaches the target and was below it before the last addition)',
+                'sample, coarse and all-atom mode (ghost sum of added fragment masses reaches the target and was below it before the last addition; every callee is called '
+                'inside its contract)',
                 'target-weight rule, derived masses vs an independent table, zero reactivities never chosen, terminal rule, same seed => same molecule in and across processes.', _T_EXT),
     'C18': _hyb('C18', 'forward_map_molecule: bead position == sum(w_i x_i) / sum(w_i) over exactly the bead\'s own atoms (reals, per coordinate)',
                 'RDKit round trip with and without conformer, bonded atoms at bonding distance after embedding for all relabelings, weighted mean and translation equivariance.', _T_EXT),
